@@ -36,7 +36,7 @@ CLAIMS = {
             "otherwise, both header copies being written from the one clamped member; the output is zip_write of the clamped members in index order, one per entry. the archive zip_write produces is read back by the "
             "model's reader as exactly the members written (count, order, names, methods, times, CRCs, sizes, data; attributes as raw_copy_file re-derives them), for all member lists whose fields fit their "
             "widths; end to end: for every input of bytes the handler rewrites, the clamped members copied out of the input are what the reader finds in the output (field widths derived from the "
-            "input being bytes). Partial because the length of CP437-transcoded names, the 4 GiB / 65535-member bounds and the absence of an accidental zip64-locator signature "
+            "input being bytes). Partial because the length of CP437-transcoded names, the 4 GiB bounds on the written records and the absence of an accidental zip64-locator signature "
             "remain hypotheses - they are an executable predicate (zip_domain, extracted, with a soundness theorem), which the check runs on every sampled archive, requiring the rewritten inputs to lie inside - and the input-side reader is the model's own; both are decided by the byte-exact differential run (extracted model vs. the real handler) and by an independent "
             "reader (python zipfile + own central/local header parser, unzip -t) comparing members before/after.",
             "Modelled, not verified: the zip crate (0.6.6) reader/writer as modelled in Zip.v (single disk, no zip64/AES records: such archives are outside the modelled class and only judged by the "
@@ -71,8 +71,7 @@ CLAIMS = {
             "results and hence the totals are those of the serial run. Tied to the code by comparing, on one tree (all handlers, malformed files, hard links within/across directories, a "
             "non-UTF-8 directory, hundreds to thousands of entries), the serial run with -jN for N from 1 to far above the job count, real and --check, and with reordered / duplicated / "
             "overlapping arguments (state without inode numbers, exit status, totals), and by replaying strace'd schedules of real parallel runs through the extracted model.",
-            "Modelled, not verified: job processing is atomic in the model and jobs on different inodes are taken not to interfere (hypothesis `commute`, backed by the C13 frame theorems, not "
-            "derived from them); the controller's walk is taken to produce the serial job list (true for non-overlapping arguments; the runs cover overlapping ones); socket capacity and "
+            "Modelled, not verified: job processing is atomic in the model; that jobs on different files do not interfere is the hypothesis `commute` of the general theorem, discharged for the instance in which the tree is the list of its files and a job applies ANY byte-level handler to its own entry (C11_files_parallel_equals_serial), but not derived from the operation-level file-system model of C13; the controller's walk is taken to produce the serial job list (true for non-overlapping arguments; the runs cover overlapping ones); socket capacity and "
             "blocking are not modelled (the pre-filled queue admits every real schedule); worker death is C19.", "DESIGN.md section 5-C11"),
     "C13": ("Coq theorems: (walk) for every list of entries, handler list, mode and single fault, a name that is neither a matching non-temp-named entry nor its hidden temp name is bound "
             "after the walk exactly as before; entries that are temp-named, not regular (symlinks, directories, FIFOs, sockets) or match no enabled handler cause no operation at all; (run) "
